@@ -136,4 +136,167 @@ theorem prune_ne_nil (W : Nat) {h : Hist V} {b : Nat} (hne : h ≠ []) : prune W
 theorem put_ne_nil {h : Hist V} {b : Nat} {v : Option V} : put h b v ≠ [] := by
   fun_induction put h b v <;> simp_all
 
+
+theorem latest_cons_ne_nil {e : Nat × Option V} {h : Hist V} (hne : h ≠ []) : latest (e :: h) = latest h := by
+  cases h with
+  | nil => exact absurd rfl hne
+  | cons x xs => simp [latest, List.getLast?_cons_cons]
+
+theorem lastKey?_cons_ne_nil {e : Nat × Option V} {h : Hist V} (hne : h ≠ []) : lastKey? (e :: h) = lastKey? h := by
+  cases h with
+  | nil => exact absurd rfl hne
+  | cons x xs => simp [lastKey?, List.getLast?_cons_cons]
+
+/-- At or above every stored key, the value in force is `latest`. -/
+theorem valAt_eq_latest {h : Hist V} {m : Nat} (hne : h ≠ []) (k : KeysLe h m) : valAt h m = some (latest h) := by
+  induction h with
+  | nil => exact absurd rfl hne
+  | cons e rest ih =>
+    have he : e.1 ≤ m := k e (by simp)
+    rw [valAt_cons_le he]
+    cases rest with
+    | nil => simp [valAt, latest]
+    | cons x xs =>
+      have hk : KeysLe (x :: xs) m := fun y hy => k y (by simp [hy])
+      have h1 := ih (by simp) hk
+      have h2 : latest (e :: x :: xs) = latest (x :: xs) := latest_cons_ne_nil (by simp)
+      rw [h1, h2]; simp
+
+theorem lastKey?_mem {h : Hist V} {l : Nat} (hl : lastKey? h = some l) : ∃ e ∈ h, e.1 = l := by
+  unfold lastKey? at hl
+  cases hg : h.getLast? with
+  | none => simp [hg] at hl
+  | some e =>
+    simp [hg] at hl
+    exact ⟨e, List.mem_of_getLast? hg, hl⟩
+
+theorem lastKey?_none {h : Hist V} (hl : lastKey? h = none) : h = [] := by
+  unfold lastKey? at hl
+  cases hg : h.getLast? with
+  | none => exact List.getLast?_eq_none_iff.mp hg
+  | some e => simp [hg] at hl
+
+/-- On a sorted history the last key bounds every key. -/
+theorem keysLe_lastKey {h : Hist V} (s : Sorted h) {l : Nat} (hl : lastKey? h = some l) : KeysLe h l := by
+  induction h with
+  | nil => intro e he; simp at he
+  | cons e rest ih =>
+    cases rest with
+    | nil =>
+      simp [lastKey?] at hl
+      intro x hx; simp at hx; subst hx; omega
+    | cons y ys =>
+      rw [lastKey?_cons_ne_nil (by simp)] at hl
+      have ih' := ih s.tail hl
+      intro x hx
+      rcases List.mem_cons.mp hx with h1 | h1
+      · subst h1
+        have := s.head_lt y (by simp)
+        have := ih' y (by simp)
+        omega
+      · exact ih' x h1
+
+theorem keysLe_mono {h : Hist V} {a b : Nat} (k : KeysLe h a) (hab : a ≤ b) : KeysLe h b :=
+  fun e he => Nat.le_trans (k e he) hab
+
+/-- Filtering a sorted history at `n` is "looking at it from block `min m n`". -/
+theorem filter_nil_of_gt {h : Hist V} {n : Nat} (hgt : ∀ e ∈ h, n < e.1) :
+    h.filter (fun e => decide (e.1 ≤ n)) = [] := by
+  apply List.filter_eq_nil_iff.mpr
+  intro e he; have := hgt e he; simp; omega
+
+theorem valAt_filter {h : Hist V} (s : Sorted h) (n m : Nat) :
+    valAt (h.filter (fun e => decide (e.1 ≤ n))) m = valAt h (min m n) := by
+  induction h with
+  | nil => simp [valAt]
+  | cons e rest ih =>
+    by_cases he : e.1 ≤ n
+    · have : (e :: rest).filter (fun e => decide (e.1 ≤ n)) = e :: rest.filter (fun e => decide (e.1 ≤ n)) := by
+        simp [List.filter_cons, he]
+      rw [this]
+      by_cases hm : e.1 ≤ m
+      · rw [valAt_cons_le hm, valAt_cons_le (by omega : e.1 ≤ min m n), ih s.tail]
+      · rw [valAt_cons_gt (by omega), valAt_cons_gt (by omega)]
+    · have hr : ∀ x ∈ rest, n < x.1 := fun x hx => by have := s.head_lt x hx; omega
+      have : (e :: rest).filter (fun e => decide (e.1 ≤ n)) = [] := by
+        simp [List.filter_cons, he]; exact List.filter_eq_nil_iff.mp (filter_nil_of_gt hr) |> fun f => by
+          intro a b hab; have := f (a, b) hab; simpa using this
+      rw [this, valAt_cons_gt (by omega)]
+      rfl
+
+theorem sorted_filter {h : Hist V} (s : Sorted h) (p : Nat × Option V → Bool) : Sorted (h.filter p) := by
+  unfold Sorted at *; exact List.Pairwise.sublist List.filter_sublist s
+
+theorem valAt_none_iff {h : Hist V} (n : Nat) : valAt h n = none ↔ (h = [] ∨ ∃ e rest, h = e :: rest ∧ n < e.1) := by
+  cases h with
+  | nil => simp [valAt]
+  | cons e rest =>
+    by_cases he : e.1 ≤ n
+    · rw [valAt_cons_le he]; simp; omega
+    · rw [valAt_cons_gt (by omega)]; simp; omega
+
+/-- `reorg` panics exactly when nothing is in force at `n`. -/
+theorem reorg_none_iff {h : Hist V} (s : Sorted h) (n : Nat) : reorg h n = none ↔ valAt h n = none := by
+  have hv := valAt_filter s n n
+  simp only [Nat.min_self] at hv
+  unfold reorg
+  simp only
+  split
+  · rename_i he
+    have : h.filter (fun e => decide (e.1 ≤ n)) = [] := by simpa using he
+    rw [this] at hv
+    simp [valAt] at hv
+    simp [hv.symm]
+  · rename_i he
+    simp only [reduceCtorEq, false_iff]
+    intro hn
+    rw [← hv] at hn
+    rcases (valAt_none_iff n).mp hn with h1 | ⟨e, rest, h1, h2⟩
+    · simp [h1] at he
+    · have hmem : e ∈ h.filter (fun e => decide (e.1 ≤ n)) := by rw [h1]; simp
+      have := (List.mem_filter.mp hmem).2
+      simp at this; omega
+
+theorem reorg_some {h h' : Hist V} {n : Nat} (hr : reorg h n = some h') :
+    h' = h.filter (fun e => decide (e.1 ≤ n)) ∧ h' ≠ [] := by
+  unfold reorg at hr
+  simp only at hr
+  split at hr
+  · simp at hr
+  · rename_i he
+    simp at hr
+    subst hr
+    exact ⟨rfl, by simpa using he⟩
+
+/-- A strictly ascending list of keys in `(lo, hi]` has at most `hi - lo` entries. -/
+theorem length_le_of_range {h : Hist V} (s : Sorted h) {lo hi : Nat} (r : ∀ e ∈ h, lo < e.1 ∧ e.1 ≤ hi) :
+    h.length ≤ hi - lo := by
+  induction h generalizing lo with
+  | nil => simp
+  | cons e rest ih =>
+    have he := r e (by simp)
+    have := ih s.tail (lo := e.1) (fun x hx => ⟨s.head_lt x hx, (r x (by simp [hx])).2⟩)
+    simp; omega
+
+theorem length_prune (W : Nat) {h : Hist V} {b : Nat} (s : Sorted h) (k : KeysLe h b) :
+    (prune W h b).length ≤ W + 1 := by
+  fun_induction prune W h b
+  · rename_i e₁ e₂ rest hle ih
+    exact ih s.tail (fun x hx => k x (by simp [hx]))
+  · rename_i e₁ e₂ rest hle
+    have hs := s.tail
+    have : rest.length ≤ b - e₂.1 := by
+      apply length_le_of_range hs.tail
+      intro x hx
+      exact ⟨hs.head_lt x hx, k x (by simp [hx])⟩
+    have h2 : e₂.1 ≤ b := k e₂ (by simp)
+    simp at this ⊢; omega
+  · rename_i h hne
+    cases h with
+    | nil => simp
+    | cons e rest =>
+      cases rest with
+      | nil => simp
+      | cons e2 r2 => exact absurd rfl (hne e e2 r2)
+
 end Brc20.Hist
